@@ -1,4 +1,5 @@
 import JetVerif.Props.C12
+import JetVerif.Props.C12S
 open JetVerif.Props.C12
 #print axioms failure_keeps_rendered_prefix
 #print axioms success_extends_output
@@ -8,3 +9,12 @@ open JetVerif.Props.C12
 #print axioms locateP_keeps_location
 #print axioms unknown_identifier_is_located_error
 #print axioms int_division_by_zero_is_located_error
+#print axioms JetVerif.Props.C12S.scope_bookkeeping_never_panics
+#print axioms JetVerif.Props.C12S.runtime_is_well_formed_after_failure
+#print axioms JetVerif.Props.C12S.initRT_swf
+#print axioms JetVerif.Props.C12S.execute_never_panics_in_scope_bookkeeping
+#print axioms JetVerif.Props.C12S.deferred_releaseScope_sees_pushed_scope
+#print axioms JetVerif.Props.C12S.withNewScopeD_keeps_callers_chain
+#print axioms JetVerif.Props.C12S.setValue_never_crashes
+#print axioms JetVerif.Props.C12S.releaseScope_on_empty_chain_panics
+#print axioms JetVerif.Props.C12S.letVar_on_nil_map_panics
